@@ -632,3 +632,45 @@ def rule_no_abort(ctx):
     elif not obs:
         obs.append(ok('NO-ABORT', 'scan', '%d fns of the three compiler-side crates: no unsafe, no abort/exit/forget, no extern block, unwinding panics' % nf))
     return obs
+
+
+@rule('PIPE-DRAIN')
+def rule_pipe_drain(ctx):
+    """a child process whose stdout is a pipe is never waited for before that pipe has been drained
+    (`wait()` with an unread piped stdout blocks forever once the child has written more than the pipe buffer)"""
+    obs = []
+    nsp = 0
+    for ck in ('cli', 'codegen', 'derive'):
+        for fn in ctx.crate(ck).all_fns():
+            if fn.from_macro:
+                continue
+            spawns = [n for n in H.calls_in(fn) if any(p.endswith('process::Command::spawn') for p in H.callee_paths(n))]
+            if not spawns:
+                continue
+            nsp += 1
+            inst = '%s/child' % short(fn.path)
+            piped = False
+            for n in fn.walk(lambda x: x['k'] == 'mcall' and x['method'] == 'stdout'):
+                if any(x['k'] in ('call', 'path') and ((x.get('callee') or {}).get('path', '') + x.get('res', {}).get('path', '')).endswith('Stdio::piped') for x in walk(n['args'])):
+                    piped = True
+            if not piped:
+                obs.append(ok('PIPE-DRAIN', inst, 'the child\'s stdout is not a pipe', spawns[0].get('sp', '')))
+                continue
+            waits = [n for n in H.calls_in(fn) if any(p.endswith('process::Child::wait') or p.endswith('process::Child::try_wait') for p in H.callee_paths(n))]
+            wwo = [n for n in H.calls_in(fn) if any(p.endswith('process::Child::wait_with_output') for p in H.callee_paths(n))]
+            reads = [n for n in fn.walk(lambda x: x['k'] == 'mcall' and x['method'] in ('read_to_string', 'read_to_end', 'read', 'read_exact', 'lines', 'bytes', 'copy'))
+                     if any(x['k'] == 'field' and x['name'] == 'stdout' for x in H.walk_through_locals(fn, n['recv']))]
+            badw = []
+            for w in waits:
+                if not any(H.precedes(fn, r, w)[0] for r in reads):
+                    badw.append(w)
+            if badw:
+                obs.append(bad('PIPE-DRAIN', inst, 'Child::wait() is called while the child\'s piped stdout has not been read', badw[0].get('sp', ''),
+                               'the command hangs forever as soon as the child writes more than one pipe buffer (64 KiB)'))
+            elif wwo or waits:
+                obs.append(ok('PIPE-DRAIN', inst, 'the piped stdout is drained (%s)' % ('wait_with_output' if wwo else 'read before wait'), (wwo or waits)[0].get('sp', '')))
+            else:
+                obs.append(undecided('PIPE-DRAIN', inst, 'the child is spawned with a piped stdout but never awaited in this function', spawns[0].get('sp', '')))
+    if nsp < 1:
+        obs.append(bad('PIPE-DRAIN', 'floor', 'anchor-missing: no child process is spawned anywhere (rustfmt step not found)'))
+    return obs
